@@ -5,3 +5,4 @@ import Ops.Quant
 import Ops.CornerTable
 import Ops.Metadata
 import Ops.BitCoders
+import Ops.MeshTools
